@@ -172,7 +172,7 @@ def _list_edit(r, w, make: Callable[[], Any], name: str, *, allow_remove_value=N
     """Random MutableSequence operation on wrapper w with donors from make()."""
     n = len(w)
     op = r.choice(['append', 'insert', 'pop', 'del', 'set', 'delslice', 'setslice', 'extend', 'clear', 'popinsert',
-                   'setfront', 'insert0']
+                   'setfront', 'insert0', 'setrev']
                   if n else ['append', 'insert', 'extend', 'extend'])
     if op == 'append':
         e = Edit(f'{name}.append(new)')
@@ -234,6 +234,16 @@ def _list_edit(r, w, make: Callable[[], Any], name: str, *, allow_remove_value=N
         vs = [make() for _ in range(k)]
         try:
             w[0:b] = vs
+        except Exception as x:
+            e.exc = x
+    elif op == 'setrev':        # reversed bounds: xs[i:j] = vs with j < i is an insertion at i
+        i = r.randrange(1, n + 1)
+        j = r.randrange(0, i)
+        k = r.choice([0, 1, 1, 2])
+        e = Edit(f'{name}[{i}:{j}] = [new]*{k}')
+        vs = [make() for _ in range(k)]
+        try:
+            w[i:j] = vs
         except Exception as x:
             e.exc = x
     elif op == 'insert0':
@@ -320,6 +330,40 @@ def random_edit(r: random.Random, root, *, allow_comments: bool = True, focus=No
                 e = Edit(f'{p} {opn} {v!r}')
                 try:
                     fn(n, v)
+                except Exception as x:
+                    e.exc = x
+                return e
+        if 0.06 <= kind < 0.09 and focus is None:
+            # --- a node that is still attached elsewhere (at the edge of a free-standing parsed model's store) offered
+            #     as a value: must be refused and change nothing; if it is accepted the trees are checked afterwards
+            global _EDGE_PARSER
+            try:
+                _EDGE_PARSER
+            except NameError:
+                from autobean_refactor import parser as parser_lib
+                _EDGE_PARSER = parser_lib.Parser()
+            donor_root = _EDGE_PARSER.parse('2001-02-03 * "edge" #dt\n  Assets:Edge  5 USD', models.Transaction)
+            cands = []
+            for p_, m_ in trees:
+                if hasattr(type(m_), 'raw_date') and getattr(m_, 'raw_date', None) is not None:
+                    cands.append((p_, m_, 'raw_date', donor_root.raw_date))
+                if isinstance(m_, models.Transaction):
+                    cands.append((p_, m_, 'raw_postings.append', donor_root.raw_postings[-1]))
+            if cands:
+                p_, m_, how, donor = r.choice(cands)
+                e = Edit(f'{p_}.{how} <- node still attached at the edge of another model\'s store')
+                before = treewalk.text_of(donor_root)
+                try:
+                    if how == 'raw_date':
+                        m_.raw_date = donor
+                    else:
+                        m_.raw_postings.append(donor)
+                    e.exc = None
+                    e.desc += ' [ACCEPTED]'
+                    probs = treewalk.wf_problems(donor_root)
+                    if treewalk.text_of(donor_root) != before or probs:
+                        e.desc += f' [donor tree damaged: {probs[:1] or "text changed"}]'
+                        e.damaged_donor = True
                 except Exception as x:
                     e.exc = x
                 return e
